@@ -85,18 +85,20 @@ def rs_of(kind, seed):
 
 def model_key(c):
     return (f"n_dim={c['n_dim']} cond={c['cond']} families={','.join(c['families'])} shapes={c['sh']} "
-            f"seed={c['seed']}")
+            + (f"constants={c['style']} " if c.get("style") else "") + f"seed={c['seed']}")
 
 
 def get_model(c):
     vc = import_virocon()
     desc = M.describe(np.random.default_rng(c["seed"]), c["n_dim"], c["cond"], c["families"], c["sh"])
+    if c.get("style"):
+        M.constant_style(desc, c["style"])
     return M.from_description(vc, desc), desc
 
 
 def ks_task(c):
     """c: model case (n_dim >= 2) or univariate case (n_dim == 1), n, rs kind"""
-    rec = dict(kind="ks", exc="", n=c["n"], overall=[], given=[], indep=[], extreme=[], finite=True, fresh=True)
+    rec = dict(kind="ks", exc="", n=c["n"], overall=[], given=[], indep=[], extreme=[], dups=[], finite=True, fresh=True)
     np.random.seed((c["seed"] + 17) % (2**32 - 1))
     try:
         if c["n_dim"] == 1:
@@ -120,6 +122,8 @@ def ks_task(c):
             x = np.asarray(model.draw_sample(c["n"], random_state=rs_of(c["rs"], c["seed"] + 1)), dtype=float)
         rec["finite"] = bool(np.all(np.isfinite(x))) and x.shape == (c["n"], c["n_dim"])
         if rec["finite"]:
+            # rows are independent draws: a continuous variable does not repeat values
+            rec["dups"] = [int(len(x) - len(np.unique(x[:, i]))) for i in range(c["n_dim"])]
             u = pit_columns(model, desc, x)
             for i in range(c["n_dim"]):
                 rec["overall"].append([int(len(u)), d5(ks_uniform(u[:, i]))])
@@ -179,7 +183,7 @@ def fitted_task(c):
     judge the PIT per conditioning region -- in particular the rows whose conditioning value lies
     outside the range of the interval reference values the fit has seen"""
     vc = import_virocon()
-    rec = dict(kind="ks", exc="", n=c["n"], overall=[], given=[], indep=[], extreme=[], finite=True, fresh=True)
+    rec = dict(kind="ks", exc="", n=c["n"], overall=[], given=[], indep=[], extreme=[], dups=[], finite=True, fresh=True)
     info = {}
     try:
         with warnings.catch_warnings():
@@ -251,7 +255,7 @@ def refit_history_task(c):
     np.random.seed((c["seed"] + 23) % (2**32 - 1))
 
     def ks_rec(obj, x, params):
-        rec = dict(kind="ks", exc="", n=c["n"], overall=[], given=[], indep=[], extreme=[], finite=True, fresh=True)
+        rec = dict(kind="ks", exc="", n=c["n"], overall=[], given=[], indep=[], extreme=[], dups=[], finite=True, fresh=True)
         rec["finite"] = bool(np.all(np.isfinite(x))) and x.shape == (c["n"],)
         if rec["finite"]:
             xx = wrap_to(params["mu"], x) if fam == "vonmises" else x
@@ -341,6 +345,11 @@ def _pool_objects(seed):
                        ([None, None, 1], ["gengamma", "lognormfit", "normal"])):
         m = M.build_model(vc, rng, len(cond), cond, fams)
         objs.append((f"GHM cond={cond} families={','.join(fams)}", m))
+    for style, cond, fams, sh in (("scalar", [None, 0], ["weibull", "normal"], [0, 1]),
+                                  ("fixed", [None, 0, 1], ["lognormal", "weibull", "expweibull"], [0, 1, 2])):
+        desc = M.describe(rng, len(cond), cond, fams, sh)
+        M.constant_style(desc, style)
+        objs.append((f"GHM cond={cond} families={','.join(fams)} constants={style}", M.from_description(vc, desc)))
     return objs
 
 
@@ -425,6 +434,18 @@ def make_tasks(ctx, cfgs, hists):
             if (idx + rep + ctx.seed) % 3 == 0:
                 k += 1
                 tasks.append(dict(base(cfg), task="ks", rs="int0", n=100_000, families=[same[k % len(same)]] * 3))
+    # parameters that are CONSTANT in the given, written as a scalar-returning callable (lambda x, a: a) or
+    # as a fixed parameter of the conditional distribution (shape class 1: all of them; 2, 3: mixed with
+    # varying ones): still one independent draw per row
+    rs4 = ["int", "generator", "none", "int0"]
+    cfgs_c = [c_ for c_ in by_n[2] if c_["cond"][1] == 0 and c_["sh"][1] in (1, 2, 3)] + \
+             [c_ for i_, c_ in enumerate(by_n[3]) if any(k_ is not None for k_ in c_["cond"])
+              and any(k_ is not None and s_ in (1, 2, 3) for k_, s_ in zip(c_["cond"], c_["sh"]))
+              and (i_ + ctx.seed) % ctx.pick(5, 1) == 0]
+    for idx, cfg in enumerate(cfgs_c):
+        for style in ("scalar", "fixed"):
+            k += 1
+            tasks.append(dict(base(cfg), task="ks", rs=rs4[k % 4], n=100_000, style=style))
     for fam in M.FAMILIES:
         tasks.append(dict(task="ks", n_dim=1, cond=[None], sh=[0], families=[fam], rs="int0",
                           seed=int(rng.integers(1, 2**31 - 1)), n=100_000))
@@ -456,8 +477,11 @@ def make_tasks(ctx, cfgs, hists):
                           seed=int(rng.integers(1, 2**31 - 1))))
     for cfg in by_n[2][5::ctx.pick(8, 2)] + by_n[3][7::ctx.pick(48, 8)]:
         tasks.append(dict(base(cfg), task="shape", sizes=sizes))
+    for j, cfg in enumerate([c_ for c_ in by_n[2] if c_["cond"][1] == 0 and c_["sh"][1] == 1][:4] +
+                            [c_ for c_ in by_n[3] if c_["cond"] == [None, 0, 1] and c_["sh"][1] == 1][:4]):
+        tasks.append(dict(base(cfg), task="shape", sizes=sizes, style=["scalar", "fixed"][j % 2]))
     # histories
-    P = 12
+    P = 14
     for j, h in enumerate(hists):
         a = (j + ctx.seed) % P
         b = (a + 1 + (j // P) % (P - 1)) % P
@@ -484,6 +508,7 @@ def judge(ctx, results, label):
             if rec["kind"] == "ks":
                 worst = {f: max((t[1] for t in rec[f]), default=0) for f in ("overall", "given", "extreme", "indep")}
                 worst["extreme regions [n, d5]"] = rec["extreme"]
+                worst["duplicated values per column"] = rec["dups"]
                 detail = f"exc={rec['exc']} n={rec['n']} max distance (1e-5) {worst} finite={rec['finite']}"
             else:
                 detail = str({k: rec[k] for k in rec if k not in ("id", "kind")})
@@ -497,7 +522,7 @@ def selftest(ctx):
     gd = [dict(obj=1, n=4, rs="gen1"), dict(obj=1, n=4, rs="gen2"), dict(obj=1, n=4, rs="gen1")]
     nn = [dict(obj=1, n=4, rs="none"), dict(obj=2, n=4, rs="seedA"), dict(obj=1, n=4, rs="none")]
     ok = dict(kind="ks", exc="", n=100000, overall=[[100000, 1100]], given=[[12500, 3300]], indep=[],
-              extreme=[[4000, 5900]], finite=True, fresh=True)
+              extreme=[[4000, 5900]], dups=[0, 3], finite=True, fresh=True)
     muts = [("SameSeedSameSample", dict(kind="hist", exc="", draws=draws, dig=[1, 2, 3])),
             ("DifferentSeedsDiffer", dict(kind="hist", exc="", draws=draws, dig=[1, 1, 1])),
             ("GeneratorAdvances", dict(kind="hist", exc="", draws=gd, dig=[1, 1, 1])),
@@ -511,6 +536,7 @@ def selftest(ctx):
             ("ComponentsIndependent", dict(ok, indep=[[12500, 40000]])),
             ("ConditionalOutsideFittedRange", dict(ok, extreme=[[4000, 6000]])),
             ("SameAsFreshObject", dict(ok, fresh=False)),
+            ("RowsDrawnIndependently", dict(ok, dups=[0, 4])),
             ("SampleFinite", dict(ok, finite=False))]
     good = [dict(ok), dict(kind="hist", exc="", draws=draws, dig=[1, 1, 2]),
             dict(kind="hist", exc="", draws=gd, dig=[1, 1, 2])]
@@ -539,8 +565,8 @@ def run(ctx):
                 "3rd-5th 1e6 in thorough); joint: every TLC-enumerated 2-D configuration (x2/x12) and every 3-D "
                 "configuration (x1/x4), concretised over the 7 families; shapes for n in {1,2,1000,1e5(,1e6)} x 3 "
                 "random_state kinds; every TLC-emitted draw history of length <= 3 over 5 random_state values x 2 "
-                "objects (x 2 sizes in thorough) replayed on a rotating pair out of 12 real objects (7 "
-                "distributions, 5 models). distinct = distinct (call, object/model, random_state, history); "
+                "objects (x 2 sizes in thorough) replayed on a rotating pair out of 14 real objects (7 "
+                "distributions, 7 models incl. scalar / fixed constant parameters). distinct = distinct (call, object/model, random_state, history); "
                 "non-trivial = joint: a dependence that varies with the given; history: at least one pair of draws")
     ctx.trusted = ["TLC evaluating spec/Trace_C07.tla (DKW inequality in integer arithmetic)",
                    "the model's own distributions[i].cdf as the probability integral transform",
@@ -555,6 +581,7 @@ def run(ctx):
     ctx.model_check("Rosenblatt", "MC_Rosenblatt_c07_otherrow.cfg", expect_violation="InverseRosenblatt")
     ctx.model_check("Rosenblatt", "MC_Rosenblatt_c07_wrongcol.cfg", expect_violation="InverseRosenblatt")
     ctx.model_check("Rosenblatt", "MC_Rosenblatt_c07_clipgiven.cfg", expect_violation="InverseRosenblatt")
+    ctx.model_check("Rosenblatt", "MC_Rosenblatt_c07_constshared.cfg", expect_violation="InverseRosenblatt")
     ctx.model_check("RngStreams", ctx.pick("MC_RngStreams_quick.cfg", "MC_RngStreams_thorough.cfg"),
                     must_cover=("Draw",))
     ctx.model_check("RngStreams", "MC_RngStreams_noadvance.cfg", expect_violation="GeneratorAdvances")
@@ -571,6 +598,10 @@ def run(ctx):
     ncmp = sum(len(r["overall"]) + len(r["given"]) + len(r["indep"]) for r in recs if r["kind"] == "ks")
     colsens = sum(1 for o in meta if o.get("colsens"))
     ctx.notes["models_sensitive_to_the_conditioning_column"] = colsens
+    nconst = sum(1 for o in meta if o["case"].get("style") and o["case"].get("task") == "ks")
+    ctx.notes["models_with_scalar_or_fixed_constant_parameters"] = nconst
+    if not ctx.violations and nconst < 20:
+        raise Machinery(f"vacuous: only {nconst} models with scalar / fixed constant conditional parameters")
     nrefit = sum(1 for o in meta if o.get("refit") and o["nontrivial"])
     ctx.notes["samples_after_fit_or_assignment_with_moved_parameters"] = nrefit
     if not ctx.violations and nrefit < 8:
